@@ -94,7 +94,7 @@ pub trait SimData: GD + HasHost + Clone {
     fn optimize_only(&mut self) -> bool {
         true
     }
-    /// Basic only: the concrete object, for the few operations outside the GarnishData trait
+    /// the concrete object, for the operations outside the GarnishData trait
     fn as_any_mut(&mut self) -> Option<&mut dyn std::any::Any> {
         None
     }
@@ -155,6 +155,10 @@ impl SimData for SimpleW {
 
     fn symbol_name(&self, sym: u64) -> Option<String> {
         self.get_symbols().get(&sym).cloned()
+    }
+
+    fn as_any_mut(&mut self) -> Option<&mut dyn std::any::Any> {
+        Some(self)
     }
 
     fn working_copy(&mut self) -> Option<Result<Self, DataError>> {
